@@ -1,5 +1,6 @@
 """C05 - revoked state is never used and state is never revoked early (structural part)."""
 from engine import *
+import provenance
 
 CH = 'lightning::ln::channel::'
 FC = CH + 'FundedChannel::'
@@ -455,4 +456,5 @@ RULES = [
 	('05.g', 'monitor: lockdown after force-close, sequential update ids, no holder-commitment update after lockdown', r05g),
 	('05.k', 'validate_commitment_signed: commitment signature, exactly one verified HTLC signature per non-dust HTLC, signer validation', r05k),
 	('05.i', 'channel_reestablish releases the last revoke_and_ack only when no monitor update is in progress', r05i),
+	('05.p', 'same-name field transfer: structs carrying this property\'s quantities are filled from the same-named field or a reviewed alias (rules/provenance.py)', lambda F: provenance.for_property(F, 'C05', '05.p')),
 ]
